@@ -211,9 +211,25 @@ func (V *Verifier) EncodeSafe(mt *MsgType, props []string) []*Obligation {
 	st, _, _, buf := x.startMsg(mt, "p")
 	u0 := st.get(buf).Seq
 	x.old = st.clone()
+	// the schema contract used at call sites says "err == nil ==> exactly the format was appended"; it is sound
+	// because a nil result implies that every callee's ok-domain held (the writers refuse everything else)
+	x.assumeBeh = func(s *State, fc *FuncContract, b *Behavior, in ssa.Instruction, hyp *Term) {
+		if b.Name == "ok" {
+			s.domain = append(s.domain, hyp)
+		}
+	}
 	x.onReturn = func(s *State, res []Value) {
 		u := s.get(buf).Seq
 		x.oblige(s, "ensures", "prefix-preserved@"+pathTag(s), App("extends", SBool, u, u0), "bytes already in the buffer are unchanged (also on error paths)")
+		en := errNilOf(res)
+		if en.IsFalse() || s.implied(en) == -1 {
+			return
+		}
+		s2 := s.clone()
+		s2.assume(en)
+		for k, h := range s.domain {
+			x.oblige(s2, "ensures", fmt.Sprintf("success-implies-domain#%d@%s", k+1, pathTag(s)), h, "Encode returns nil only if every length and count fitted its prefix (so that a nil result means the whole format was written)")
+		}
 	}
 	x.execAll(st)
 	if x.returns == 0 {
